@@ -258,6 +258,16 @@ class GatedRun:
             sys.stderr = real_stderr
             sys.stdout = real_stdout
             self._uninstall()
+        # the keyboard thread ended although the user's script still holds a 'q' (and no end of input before it): whatever killed
+        # it - the code swallows every exception of that thread - has made the quit impossible.  (Sessions that restore an
+        # interrupted Markov level are exempt: there a status request may end the thread while the placeholder pre-terminal is
+        # installed - Session.tla, KStatus.)
+        rest = list(self.script)
+        died = ('K' in self.sched.done) and ('q' in rest) and ('EOF' not in rest[:rest.index('q')]) and not self.q_consumed
+        if died and not self.load and finished:
+            core.PENDING_RAISES.append({'error': "the keyboard thread ended before it read the user's q", 'clause': 'C12_quit_is_not_made_impossible',
+                                        'via': 'gated two-thread session', 'script_left': rest, 'schedule': ''.join(schedule)[:80],
+                                        'lines_written': len(self.lines)})
         if self.error:
             core.PENDING_RAISES.append({'error': self.error, 'via': 'gated two-thread session', 'load': bool(self.load), 'script': self.script,
                                         'schedule': ''.join(schedule)[:60], 'lines_written': len(self.lines)})
